@@ -78,11 +78,14 @@ class InterruptableThread(threading.Thread):
         """
 
         """
-        self.exc_info = sys.exc_info()
         # Whatever this thread is waiting for has to end with it, now and
         # not when its own wait is over
         for child in list(self.children):
             child.terminate()
+        if not any(thread is self for thread in list(threading._active.values())):
+            # Already over: what it ended with is not to be forgotten
+            return
+        self.exc_info = sys.exc_info()
         self.raise_exception(SystemExit)
 
 
